@@ -226,6 +226,51 @@ class HRunner(Runner):
             self.judge("read", s, out, {})
 
 
+def far_dates_differential(res, scratch):
+    """Handle versus database on instants one microsecond apart far outside the range in which float seconds can tell
+    them apart (years 2600 and 1000), stored out of time order: purely differential (no model, no time queries) -
+    whatever the database answers for the whole store, the handle answers the same restricted to its measurement."""
+    from datetime import datetime, timedelta, timezone
+
+    from tinyflux import Point, TinyFlux
+    from tinyflux.storages import MemoryStorage
+
+    base = [datetime(2600, 5, 6, 7, 8, 9, 123456, tzinfo=timezone.utc), datetime(1000, 1, 2, 3, 4, 5, 654321, tzinfo=timezone.utc)]
+    for storage in ("mem", "csv"):
+        for auto in (True, False):
+            path = scratch.new_db_path() if storage == "csv" else None
+            db = TinyFlux(path, auto_index=auto) if path else TinyFlux(storage=MemoryStorage, auto_index=auto)
+            try:
+                k = 0
+                for b in base:
+                    for us in (3, 1, 2, 0, 1):
+                        for m in ("m0", "m1"):
+                            db.insert(Point(time=b + timedelta(microseconds=us), measurement=m, tags={"k": str(k)}, fields={"x": k}))
+                            k += 1
+                for name in ("m0", "m1", "absent"):
+                    h = db.measurement(name)
+                    pairs = [
+                        ("all(sorted=True)", [p.tags["k"] for p in h.all(sorted=True)], [p.tags["k"] for p in db.all(sorted=True) if p.measurement == name]),
+                        ("all(sorted=False)", [p.tags["k"] for p in h.all(sorted=False)], [p.tags["k"] for p in db.all(sorted=False) if p.measurement == name]),
+                        ("iter", [p.tags["k"] for p in h], [p.tags["k"] for p in db if p.measurement == name]),
+                        ("len", len(h), sum(1 for p in db if p.measurement == name)),
+                        ("get_timestamps", h.get_timestamps(), db.get_timestamps(name)),
+                        ("get_field_values", h.get_field_values("x"), db.get_field_values("x", name)),
+                    ]
+                    for what, got, want in pairs:
+                        res.evaluations += 1
+                        res.count("far_dates_differential_reads")
+                        if got != want:
+                            res.violate(Violation("C10", f"handle-{what.split('(')[0]}-differs", {"config": f"{storage}/{'ai' if auto else 'noai'}", "read": what, "measurement": name,
+                                                  "handle": repr(got)[:300], "database_restricted": repr(want)[:300], "note": "instants 1 us apart in the years 2600 and 1000"},
+                                                  replay={"far_dates": True, "storage": storage, "auto_index": auto}, features={"cfg": storage, "op": what}))
+                            return
+            finally:
+                db.close()
+                if path:
+                    scratch.drop_db_dir(path)
+
+
 def run(res, tier, seed, shard, nshards):
     contracts.install()
     res.rule = (
@@ -246,6 +291,8 @@ def run(res, tier, seed, shard, nshards):
                 s = _run_with_sticky(r, sticky)
                 if h == 0 and shard == 0 and ci in (0, 3):
                     res.sample({"config": cfg_name(cfg), "first_ops": s.log[:5]})
+        if shard == 0:
+            far_dates_differential(res, scratch)
     contracts.drain(res)
     for k in ("search", "count", "get", "select", "contains", "len", "iter", "all", "get_field_values", "get_tag_values", "get_timestamps", "get_tag_keys", "get_field_keys"):
         res.require(f"handle_reads.{k}")
